@@ -9,7 +9,8 @@ LEVEL_TEXT = ("Lean theorems (Props/C15.lean): listing->ASCII BASIC has the stat
               "the round trip returns the normalised non-blank lines. Tie: differential CLI runs of moto_lst2bas and "
               "moto_bas2lst on generated texts / byte files, exhaustive over a 4-symbol alphabet.")
 
-CHARS = list("AZaz09 \t\"$:") + ["\x0b", "\x0c", "\x1c", "\x1f", "\x85", "\xa0", "\u2028", "\u3000", "é", "€", "\x7f", "\x00"]
+CHARS = list("AZaz09 \t\"$:") + ["\x0b", "\x0c", "\x1c", "\x1f", "\x85", "\xa0", "\u2028", "\u3000", "é", "€", "\x7f", "\x00",
+                                  "\x80", "\x81", "\xff", "\u0100"]   # the first code points that are not 7-bit
 
 
 def lst2bas(ctx, text):
